@@ -44,7 +44,8 @@ RightTd(i, sr) ==
 MCOutputs(i) == {[sr |-> s, tv |-> v, td |-> IF v /\ i.rdy THEN RightTd(i, s) ELSE 0] : s, v \in BOOLEAN}
 
 Do(i, o) == /\ Failing(i, o) = "ok" /\ Step(i, o)
-            /\ stall' = IF i.rdy THEN 0 ELSE stall + 1 /\ UNCHANGED nrst
+            /\ stall' = (IF i.rdy THEN 0 ELSE stall + 1)
+            /\ UNCHANGED nrst
 
 K(i) == Len(Wire0) + 1
 \* the step relation, split by the Ref branch taken (each must be covered)
